@@ -53,6 +53,7 @@ struct Counts {
     p1c_pairs: u64,
     p2_pairs: u64,
     p3_checked: u64,
+    panicked: u64,
 }
 
 struct W<'c> {
@@ -184,7 +185,9 @@ impl W<'_> {
                         self.c.parse_calls += 1;
                         self.c.p1b_pairs += 1;
                         let ok = matches!(&vp, V::Acc(c2, call2) if c2 == c && call_eq(call, call2));
-                        if !ok {
+                        if matches!(vp, V::Panic) {
+                            self.c.panicked += 1;
+                        } else if !ok {
                             let f = features("P1b-depends-on-lookahead", &v, Some(&vp), x);
                             self.groups.add("P1", &f, (x.len(), x), || {
                                 (
@@ -211,7 +214,9 @@ impl W<'_> {
                                     self.c.parse_calls += 1;
                                     self.c.p1c_pairs += 1;
                                     let ok = matches!(&v2, V::Acc(c2, call2) if c2 == c && call_eq(call, call2));
-                                    if !ok {
+                                    if matches!(v2, V::Panic) {
+                                        self.c.panicked += 1;
+                                    } else if !ok {
                                         let f = features("P1c-continuation-changes-accept", &v, Some(&v2), x);
                                         self.groups.add("P1", &f, (xy.len(), &xy), || wit("P1c", y, &v, Some(&v2)));
                                     }
@@ -245,6 +250,7 @@ impl W<'_> {
                         }
                     }
                 }
+                V::Panic => self.c.panicked += 1,
                 V::Inc => {
                     self.c.inc += 1;
                     self.c.p3_checked += 1;
@@ -369,6 +375,7 @@ fn replay(path: &str) -> ! {
 
 fn main() {
     let args = Args::parse();
+    mc::runx::silence_panics();
     if let Some(p) = &args.replay {
         replay(p);
     }
@@ -482,6 +489,7 @@ fn main() {
             c.p1c_pairs += w.c.p1c_pairs;
             c.p2_pairs += w.c.p2_pairs;
             c.p3_checked += w.c.p3_checked;
+            c.panicked += w.c.panicked;
         }
     }
     if c.cases != expected_cases {
@@ -517,7 +525,7 @@ fn main() {
     out.cov(
         "pairs_checked",
         json!({"P1b_prefix_of_accept": c.p1b_pairs, "P1c_accept_continuations": c.p1c_pairs,
-               "P2_reject_continuations": c.p2_pairs, "P3_incomplete_inputs": c.p3_checked}),
+               "P2_reject_continuations": c.p2_pairs, "P3_incomplete_inputs": c.p3_checked, "parse_calls_that_panicked_and_were_skipped": c.panicked}),
     );
     out.cov(
         "samples",
